@@ -5,7 +5,7 @@ For each: scratch copy of /repo's working tree (outside /repo and /verif) -> dem
 apply patch -> repository baseline (39 tests) must still pass -> demo must FAIL -> `bin/check <ID> --tier quick` with
 VERIF_REPO=<scratch> must exit 1 with a VIOLATION line (evidence redirected into the scratch dir).  With --thorough the
 thorough tier is tried for those the quick tier missed.  Results: seeded/RESULTS.json + a table on stdout.
-usage: run_seeded.py [ID-or-prefix ...] [--thorough] [--seed N]"""
+usage: run_seeded.py [ID-or-prefix ...] [--thorough] [--seed N] [--jobs N]"""
 import json, os, shutil, subprocess, sys, tempfile, time
 HERE = os.path.dirname(os.path.dirname(os.path.abspath(__file__)))
 SEEDED = os.path.join(HERE, 'seeded')
@@ -85,6 +85,9 @@ def main():
     if '--seed' in sys.argv:
         seed = sys.argv[sys.argv.index('--seed') + 1]
         args = [a for a in args if a != seed]
+    if '--jobs' in sys.argv:
+        jv = sys.argv[sys.argv.index('--jobs') + 1]
+        args = [a for a in args if a != jv]
     names = sorted(n for n in os.listdir(SEEDED) if os.path.isfile(os.path.join(SEEDED, n, 'patch.diff')))
     if args:
         names = [n for n in names if any(n.startswith(a) for a in args)]
@@ -95,8 +98,16 @@ def main():
         except ValueError:
             return {}
     allres = load()
-    for n in names:
-        r = evaluate(n, '--thorough' in sys.argv, seed)
+    jobs = 1
+    if '--jobs' in sys.argv:
+        jobs = int(sys.argv[sys.argv.index('--jobs') + 1])
+    if jobs > 1:
+        from concurrent.futures import ThreadPoolExecutor
+        pool = ThreadPoolExecutor(jobs)
+        results = pool.map(lambda n: (n, evaluate(n, '--thorough' in sys.argv, seed)), names)
+    else:
+        results = ((n, evaluate(n, '--thorough' in sys.argv, seed)) for n in names)
+    for n, r in results:
         allres[n] = r
         last = r.get('thorough') or r.get('quick') or {}
         print(f"{n:12s} demo clean={r.get('demo_on_clean')} patched={r.get('demo_with_patch')} baseline={'ok' if r.get('baseline_passes') else 'BROKEN'} "
